@@ -24,13 +24,14 @@ type Prog struct {
 	Dir   string
 	Fset  *token.FileSet
 	Pkgs  map[string]*packages.Package // by import path (repo packages only)
-	All   []*packages.Package         // repo packages, sorted
+	All   []*packages.Package          // repo packages, sorted
 	SSA   *ssa.Program
 	SPkgs map[string]*ssa.Package
 
-	funcs    []*ssa.Function // all functions (incl. anonymous) of repo packages
-	callers  map[*ssa.Function][]ssa.CallInstruction
-	invokers map[string][]ssa.CallInstruction // by method name
+	funcs      []*ssa.Function // all functions (incl. anonymous) of repo packages
+	callers    map[*ssa.Function][]ssa.CallInstruction
+	uniqueSite map[*ssa.Function]ssa.CallInstruction
+	invokers   map[string][]ssa.CallInstruction // by method name
 }
 
 // Load loads every package of the module at dir. Any type error in a repo package is
@@ -86,6 +87,8 @@ func Load(dir string, env []string) (*Prog, error) {
 
 func (p *Prog) index() {
 	p.callers = map[*ssa.Function][]ssa.CallInstruction{}
+	p.uniqueSite = map[*ssa.Function]ssa.CallInstruction{}
+	Current = p
 	p.invokers = map[string][]ssa.CallInstruction{}
 	seen := map[*ssa.Function]bool{}
 	var add func(f *ssa.Function)
